@@ -50,6 +50,8 @@ var registry = []struct {
 	{"ErrKVLeaseExpired", chord.ErrKVLeaseExpired},
 	{"ErrKVLeaseInvalidTTL", chord.ErrKVLeaseInvalidTTL},
 	{"ErrKVHashFnChanged", chord.ErrKVHashFnChanged},
+	// external sentinel the chord package knows about (retryableErrs / errorStrMap literals)
+	{"context.DeadlineExceeded", context.DeadlineExceeded},
 }
 
 // stub local node: every operation fails with `err`
@@ -163,6 +165,8 @@ var methods = []method{
 	}},
 }
 
+var transportRetries int // global budget: a persistent message change is not a transport hiccup
+
 type rig struct {
 	st     *stub
 	caller *chordImpl.RemoteNode
@@ -221,7 +225,7 @@ func identify(err error) string {
 func (g *rig) run(r *hlib.Run, m method, kind, arg string, origin error) {
 	g.st.err = origin
 	lhs := fmt.Sprintf("rpc %s %s %s %s", m.name, kind, arg, hlib.B(chord.ErrorIsRetryable(origin)))
-	res := func() (res string) {
+	attempt := func() (res string, transport bool) {
 		defer func() {
 			if p := recover(); p != nil {
 				res = "panic"
@@ -229,15 +233,29 @@ func (g *rig) run(r *hlib.Run, m method, kind, arg string, origin error) {
 		}()
 		err := m.call(g.ctx, g.caller, g.peerVN)
 		if err == nil {
-			return "noerror"
+			return "noerror", false
 		}
 		id := identify(err)
 		msg := "-"
 		if te, ok := err.(twirp.Error); ok {
 			msg = hlib.B(te.Msg() == origin.Error())
+			// a twirp error that does not carry the handler's message did not come from the handler (client-side
+			// timeout / transport hiccup on a loaded machine): not the subject, try again
+			transport = te.Msg() != origin.Error()
 		}
-		return fmt.Sprintf("id=%s retry=%s msgsame=%s", id, hlib.B(chord.ErrorIsRetryable(err)), msg)
-	}()
+		return fmt.Sprintf("id=%s retry=%s msgsame=%s", id, hlib.B(chord.ErrorIsRetryable(err)), msg), transport
+	}
+	var res string
+	for try := 0; try < 4; try++ {
+		var transport bool
+		res, transport = attempt()
+		if !transport || transportRetries >= 30 {
+			break
+		}
+		transportRetries++
+		r.Count("transport-level-failure-retried")
+		time.Sleep(200 * time.Millisecond)
+	}
 	r.Emit(lhs, res)
 	r.Case(lhs + "|" + res)
 	r.Count("kind:" + kind)
@@ -318,6 +336,9 @@ func main() {
 	for round := 0; round < rounds; round++ {
 		for _, m := range methods {
 			for _, e := range registry {
+				if e.name == "context.DeadlineExceeded" {
+					continue // exercised as kind `deadline`
+				}
 				one(m, "reg", e.name)
 				if round == 0 || rng.Chance(20) {
 					one(m, "wrapped", e.name)
